@@ -254,7 +254,7 @@ def explore_tours(seed: int, chk: common.Check, visits: int, facets=("svc", "app
     traces = []
     for facet in facets:
         g = tour.graph(facet)
-        eps, st = tour.tour(g, random.Random(seed), episode_len=300)
+        eps, st = tour.tour(g, random.Random(seed), episode_len=300, level="coarse" if visits == 1 else "exact")
         chk.add_mc(f"Lifecycle({facet})", g["tlc"])
         chk.cov[f"tour_{facet}"] = st
         cfg, idx = tour.scenario(facet)
@@ -336,7 +336,7 @@ def main(tier: str, seed: int) -> int:
     chk.add_mc("MC_Requests(400 trees x 120 paths)", r)
     common.boot()
     traces = []
-    budget = 260 if tier == "quick" else 2500
+    budget = 180 if tier == "quick" else 2500
     for label, cfg in scenario_list(tier):
         traces += explore(label, cfg, budget, rng, chk)
     fs_behs, info = tlc.simulate("MC_FileSystem", "Sim_FileSystem.cfg", num=25 if tier == "quick" else 250, depth=30, seed=seed + 4)
@@ -353,7 +353,7 @@ def main(tier: str, seed: int) -> int:
     tail = [st("MPreTick"), st("MTick"), st("MPreTick"), st("MTick"), st("MPreTick"), st("MTick"), st("MPreTick"), st("MTick")]
     seqs = [list(x) for n in (1, 2, 3) for x in itertools.product(alphabet, repeat=n)]
     four = [list(x) for x in itertools.product(alphabet, repeat=4)]
-    seqs += four if tier == "thorough" else rng.sample(four, 150)
+    seqs += four if tier == "thorough" else rng.sample(four, 100)
     directed = [[st("Init"), st("MCreateFile", '"f","a.txt"')] + q + tail for q in seqs]
     traces += explore_fs_histories(fs_behs + directed, rng, chk)
     # (quick: one facet per run, rotating with the seed - C01, C11 and C14 run all three tours on every change)
